@@ -15,6 +15,8 @@ import (
 	"golang.org/x/tools/go/cfg"
 	"golang.org/x/tools/go/packages"
 	"golang.org/x/tools/go/types/typeutil"
+
+	"verifcheck/internal/core"
 )
 
 // Effect adds N to the counter of class C.
@@ -202,7 +204,11 @@ func NewEngine(sem Semantics, pkgs []*packages.Package) *Engine {
 					continue
 				}
 				obj, _ := pk.TypesInfo.Defs[fd.Name].(*types.Func)
-				u := &Unit{ID: len(e.Units), Name: declName(pk, fd), Pkg: pk, Body: fd.Body, Type: fd.Type, Obj: obj, Kind: KindDecl, Pos: fd.Pos()}
+				uname := declName(pk, fd)
+				if obj != nil && core.IsRenamed(obj) {
+					uname = core.FuncName(obj) // keep answering to the reference name
+				}
+				u := &Unit{ID: len(e.Units), Name: uname, Pkg: pk, Body: fd.Body, Type: fd.Type, Obj: obj, Kind: KindDecl, Pos: fd.Pos()}
 				e.Units = append(e.Units, u)
 				if obj != nil {
 					e.ByObj[obj] = u
